@@ -50,7 +50,7 @@ bool read(std::ifstream &f, T &val) {
 /// Read vector from a binary file.
 template <class T>
 bool read(std::ifstream &f, std::vector<T> &vec) {
-    return static_cast<bool>(f.read((char*)&vec[0], sizeof(T) * vec.size()));
+    return static_cast<bool>(f.read((char*)vec.data(), sizeof(T) * vec.size()));
 }
 
 /// Get size of the CRS matrix stored in a binary file
@@ -126,7 +126,7 @@ void read_crs(
     for(ptrdiff_t i = 0; i < chunk; ++i) {
         Ptr beg = ptr[i];
         Ptr end = ptr[i + 1];
-        amgcl::detail::sort_row(&col[beg], &val[beg], end - beg);
+        amgcl::detail::sort_row(col.data() + beg, val.data() + beg, end - beg);
     }
 }
 
@@ -174,7 +174,7 @@ bool write(std::ofstream &f, const T &val) {
 /// Write vector to a binary file.
 template <class T>
 bool write(std::ofstream &f, const std::vector<T> &vec) {
-    return static_cast<bool>(f.write((char*)&vec[0], sizeof(T) * vec.size()));
+    return static_cast<bool>(f.write((const char*)vec.data(), sizeof(T) * vec.size()));
 }
 
 } // namespace io
